@@ -144,6 +144,9 @@ def oracle(case, line):
     bad = []
     ctor = []
     prev = None
+    # what each peer last declared (INTERESTED / NOT_INTERESTED on the upload side; remote UNCHOKE while we
+    # are interested / CHOKE or loss of interest on the download side), independent of the client's flags
+    decl = {"u": {}, "d": {}}
     for i, d in enumerate(dumps):
         op = ops[i - 1] if i > 0 else ["init"]
         if d.startswith("ERR"):
@@ -153,8 +156,23 @@ def oracle(case, line):
         now, up, dn = parse_dump(d)
         if op[0] == "N" and len(up["C"]) > len(ctor):
             ctor.append(int(op[1]))
+        if op[0] in ("Q", "U", "K") and len(op) == 3 and op[1] in decl:
+            c = int(op[2])
+            if c < len(up["C"]) and (prev is None or (c < len(prev[1]["C"]) and prev[1]["C"][c]["a"])):
+                decl[op[1]][c] = (op[0] == "Q")
         for side, h in (("upload", up), ("download", dn)):
             bad += check_counters(h, ctor, side)
+            for c, s in enumerate(h["C"]):
+                if not s["a"]:
+                    continue
+                want = decl[side[0]].get(c, False)
+                if s["q"] and not want:
+                    bad.append(("interest-record", "%s connection %d: recorded as interested/queued although its last declaration was not-interested" % (side, c)))
+                if s["u"] and not want:
+                    bad.append(("slot-held-uninterested", "%s connection %d holds a slot although it is not interested" % (side, c)))
+                if want and not s["s"] and not s["q"]:
+                    bad.append(("snub-forgets-interest", "%s connection %d: interested and not snubbed, but the client no longer records its interest "
+                                "(set_snubbed cleared the queued flag; the peer is never unchoked again)" % (side, c)))
         if prev is not None:
             bad += check_limits(op, prev[1], up, "upload")
             bad += check_limits(op, prev[2], dn, "download")
